@@ -3,7 +3,7 @@
 From Coq Require Import List Bool Arith NArith ZArith String Ascii.
 Require Extraction.
 Require Import ExtrOcamlBasic.
-Require Import Stab Act Spec GF2 Gen_GateTable R8 B8 Dec Formats Counts DemFlat Tr CoinWord QCoords Target TargetList DemTargets.
+Require Import Stab Act Spec GF2 Gen_GateTable R8 B8 Dec Formats Counts DemFlat Tr CoinWord QCoords Target TargetList DemTargets Mpp.
 Extraction Language OCaml.
 Set Extraction Optimize.
 Extraction "sv.ml"
@@ -15,6 +15,7 @@ Extraction "sv.ml"
   DemFlat.flat DemFlat.exec DemFlat.unroll
   Tr.transpose64 CoinWord.brb_exact QCoords.ffl QCoords.execl QCoords.vzero QCoords.cempty
   TargetList.read_targets TargetList.write_targets DemTargets.read_dtargets DemTargets.write_dtargets
+  Mpp.decompose_mpp Mpp.decompose_spp Mpp.pair_segments Mpp.rev_segments
   Act.gate_named Act.gate_aliased Act.gate_id Act.inverse_of Act.flows_of Act.local1 Act.local2 Act.run1 Act.run2
   Act.unitary1 Act.unitary2 Act.e_name Act.e_id Act.e_flags Act.e_flows Act.e_nargs
   Gen_GateTable.gate_table Gen_GateTable.hash_table.
